@@ -19,3 +19,8 @@ def semantic_universe(tier, seed, stress=False):
     except ImportError:
         pass
     return renumber(insts)
+
+def mutated_universe(tier, seed):
+    """near-valid queries (gen/badq.py): a valid random query with one or two targeted mutations; most are invalid, some stay valid"""
+    import badq
+    return badq.frontend_universe(tier, seed)
